@@ -9,7 +9,8 @@ EXPLANATION = (
     "header/limit ordering x the three modes x every outcome of validate_row x a container fault injected at every "
     "row boundary. Per run the oracle requires: an accepted data row is returned as the same object and counted as "
     "accepted; a rejected row is counted as rejected and produces its own error object in 'yield', nothing in "
-    "'continue', and is re-raised (same object, no counter touched) in 'raise'; the counters add up to the number of "
+    "'continue', and is re-raised (same object, no counter touched) in 'raise'; every row - also one after a rejected row - "
+    "is validated with the cursor on its own line, so the error of row k is the same in every mode; the counters add up to the number of "
     "data rows after a complete pass; a DataFormatError raised by the raw-row source stops reading in every mode "
     "(it is never counted, yielded or swallowed). Errors keep copies of the cursor (O6.4), so a yielded error keeps "
     "its own location after iteration moved on. The relational statement 'modes differ only in presentation' follows "
@@ -20,7 +21,7 @@ ASSUMPTIONS = ["csv / xlrd / ElementTree detect malformed containers (not decide
 
 def rule_modes(ctx):
     ctx.res.minimum("O6.1", 2)
-    protocol.reader_rows_table(ctx, "O6.1", {"modes", "faults"}, "Reader.rows")
+    protocol.reader_rows_table(ctx, "O6.1", {"modes", "faults", "lines"}, "Reader.rows")
     protocol.reader_rows_table(ctx, "O6.1", {"modes", "faults"}, "rows()")
 
 
@@ -101,4 +102,12 @@ def rule_fixed_reader_reports_malformed_streams(ctx):
     rule_fixed_rows(ctx)
 
 
-RULES = [rule_modes, rule_copies, rule_raw_reader_escapes, rule_csv_fault_conversion, rule_strict_csv_reader, rule_fixed_reader_reports_malformed_streams, rule_module_state]
+def rule_ods_container_faults(ctx):
+    """O6.5: an ODS file that is empty, no archive, lacks content.xml or holds malformed XML stops reading with a
+    data-format error and delivers no row (C15's table); the mode plays no part because the raw reader fails."""
+    from .c15 import rule_container_faults
+
+    rule_container_faults(ctx, "O6.5")
+
+
+RULES = [rule_modes, rule_copies, rule_raw_reader_escapes, rule_csv_fault_conversion, rule_strict_csv_reader, rule_fixed_reader_reports_malformed_streams, rule_ods_container_faults, rule_module_state]
